@@ -578,7 +578,8 @@ def tree_obs(case):
         return {"exc": exc, "flag": None, "sigs": None, "tree": None}
     paths = {}
     index_tree(el, sch, [], paths)
-    sigs = [[paths.get(id(sender), ["orphan"]), adapted, snap] for sender, adapted, snap in events]
+    # a sender that is not part of the final tree (a JoinedString piece that was pruned) has no path
+    sigs = [[paths.get(id(sender)), adapted, snap] for sender, adapted, snap in events]
     return {"exc": None, "flag": flag, "sigs": sigs, "tree": tree_canon(el, sch)}
 
 
@@ -782,6 +783,14 @@ class C04(Property):
             tree_case({"s": "joined", "sep": ",", "prune": True, "member": K_string(True)}, leaf(None), leaf("a,b")),
             tree_case({"s": "joined", "sep": ",", "prune": True, "member": K_string(True)}, leaf(7), leaf("a,b")),
             tree_case({"s": "joined", "sep": ",", "prune": False, "member": K_int(True)}, leaf(S.Other("thing", True))),
+            # fixed 2a6b55c: the member adapts the piece first and is pruned on its text: 0 is kept, a blank-only piece of
+            # a stripping member is dropped after having signalled (from outside the tree), its flag does not count
+            tree_case({"s": "joined", "sep": ",", "prune": True, "member": K_int(True)}, {"i": "list", "v": [leaf(0), leaf(1)]}),
+            tree_case({"s": "joined", "sep": ",", "prune": True, "member": K_string(True)}, {"i": "list", "v": [leaf("a"), leaf(" "), leaf("b")]}),
+            tree_case({"s": "joined", "sep": ",", "prune": True, "member": K_int(True)}, leaf("1, ,x")),
+            # fa34a5f: Number.serialize lets format errors out for finite values; NaN/sNaN/inf still fall back to str()
+            scalar_case({"k": "decimal", "signed": True}, decimal.Decimal("Infinity")),
+            scalar_case(K_int(True), float("inf")),
             tree_case({"s": "dict", "policy": "subset", "fields": [["j", {"s": "joined", "sep": ",", "prune": True, "member": K_string(True)}],
                                                                   ["a", str_f]]},
                       {"i": "dict", "v": [[S.py_to_nat("j"), leaf(None)], [S.py_to_nat("a"), leaf("x")]]}),
@@ -959,7 +968,7 @@ class C04(Property):
             fails.append({"clause": "signal-after-final", "expected": final, "observed": snap})
         if not isinstance(flag, bool):
             fails.append({"clause": "flag-is-bool", "expected": "bool", "observed": repr(flag)})
-        direct = [e[1] for e in events[:-1] if len(paths.get(id(e[0]), ["orphan", "x"])) == 1]
+        direct = [e[1] for e in events[:-1] if len(paths.get(id(e[0])) or ["pruned", "piece"]) == 1]
         if sch["s"] in ("seq", "dict", "joined") and direct and flag is not all(direct):
             fails.append({"clause": "flag-is-conjunction-of-children", "expected": all(direct), "observed": flag})
         return fails
